@@ -29,7 +29,8 @@ def _mk(seq, npos, glob, nint, p0, p1, a0, b0, amb):
     return _build(seq, pos, glob, (a0, b0, amb) if nint else None)
 
 
-def o_mod_dict_roundtrip(seq: str, npos: int, glob: bool, nint: int, amb: bool, p0: int = 0, p1: int = 0, a0: int = 0, b0: int = 1, excl=()) -> bool:
+def o_mod_dict_roundtrip(seq: str, npos: int, glob: bool, nint: int, amb: bool, p0: int = 0, p1: int = 0, a0: int = 0, b0: int = 1,
+                          forms: bool = False, excl=()) -> bool:
     """add_mods(strip_mods(s), get_mods(s)) == s;  create_annotation(**a.dict()) equals a;  strip removes everything else nothing"""
     a = _mk(seq, npos, glob, nint, p0, p1, a0, b0, amb)
     s = a.serialize()
@@ -41,13 +42,8 @@ def o_mod_dict_roundtrip(seq: str, npos: int, glob: bool, nint: int, amb: bool, 
     rebuilt = SF.add_mods(stripped, md)
     if rebuilt != s:
         return _fail(why="add_mods(strip_mods(s), get_mods(s)) != s", got=rebuilt, want=s)
-    # the same through pop_mods, and with the peptide given as a string
-    bare, md2 = SF.pop_mods(a)
-    if bare != seq or SF.add_mods(bare, md2) != s:
-        return _fail(why="add_mods(*pop_mods(a)) != s", got=(bare, SF.add_mods(bare, md2)), want=s)
-    bare3, md3 = SF.pop_mods(s)
-    if bare3 != seq or SF.add_mods(bare3, md3) != s or SF.add_mods(SF.strip_mods(s), SF.get_mods(s)) != s:
-        return _fail(why="string input: add_mods(strip_mods(s), get_mods(s)) != s", want=s)
+    if forms:
+        return _forms(a, seq, s)
     if D.dump(a) != before:
         return _fail(why="get_mods/strip_mods/add_mods changed the annotation")
     b = create_annotation(**a.dict())
@@ -63,6 +59,18 @@ def o_mod_dict_roundtrip(seq: str, npos: int, glob: bool, nint: int, amb: bool, 
     a2.strip(inplace=True)
     if D.norm_empty(D.dump(a2)) != want:
         return _fail(why="strip(inplace) left something", got=D.dump(a2))
+    return True
+
+
+def _forms(a, seq: str, s: str) -> bool:
+    """the same round trip through pop_mods, and with the peptide given as a ProForma string"""
+    bare, md2 = SF.pop_mods(a)
+
+    if bare != seq or SF.add_mods(bare, md2) != s:
+        return _fail(why="add_mods(*pop_mods(a)) != s", got=(bare, SF.add_mods(bare, md2)), want=s)
+    bare3, md3 = SF.pop_mods(s)
+    if bare3 != seq or SF.add_mods(bare3, md3) != s or SF.add_mods(SF.strip_mods(s), SF.get_mods(s)) != s:
+        return _fail(why="string input: add_mods(strip_mods(s), get_mods(s)) != s", want=s)
     return True
 
 
